@@ -8,12 +8,13 @@ import itertools
 RULE = ("histories over up to 3 prepared statements where every execution independently rebinds (new-params-bound=1 with "
         "random types) or reuses (flag 0, values encoded with the statement's latest bound types), interleaved with "
         "re-prepares, closes and executions of other statements; exhaustive over all rebind/reuse patterns of <= 4 executions "
-        "on 2 statements with a 2-type alphabet; oracle: every execution delivers the types and values the client encoded; "
+        "on 2 statements with a 2-type alphabet; plus histories ending in a re-prepare under a live (or just closed) id followed by a "
+        "type-reusing execution, which must be refused; oracle: every execution delivers the types and values the client encoded; "
         "non-trivial = at least one reusing execution; distinct = distinct case text")
 ASSUMPTIONS = ["shim callbacks return"]
 
 
-def history_case(ctx, cid, plan=None, with_long=False, lim=U24_MAX):
+def history_case(ctx, cid, plan=None, with_long=False, lim=U24_MAX, stale=False):
     """plan: list of (stmt index, rebind?) or None for random"""
     rng = ctx.rng
     nst = 2 if plan else rng.randint(1, 3)
@@ -93,8 +94,23 @@ def history_case(ctx, cid, plan=None, with_long=False, lim=U24_MAX):
         bound[k] = types
         for key in [key for key in pend if key[0] == k]:
             del pend[key]
+    if stale:
+        # a statement prepared again under an id whose previous statement had bound types (with or without a
+        # CLOSE in between) is a new statement: an execution that reuses types has none to reuse and is refused
+        ks = [k for k in range(nst) if bound[k] is not None]
+        if not ks:
+            return history_case(ctx, cid, plan, with_long, lim, stale)
+        k = rng.choice(ks)
+        old = bound[k]
+        if rng.random() < 0.4:
+            cmds.append(("close", cmd_close(ids[k]))); exp.append("close|%d" % ids[k])
+        prepare(k)
+        ps = [rand_param(rng, [t]) for (t, u) in old]
+        cmds.append(("execute", cmd_execute(ids[k], exec_block([False] * len(ps), None, [p[2] for p in ps]))))
+        scripts.append("x all - done 0 0")
     c = mk_case(cid, cmds, scripts, lim=lim, chunks=[rng.choice([1, 9, 2048])])
     c.meta["expect_calls"] = ["auth|" + b"jon".hex()] + exp
+    c.meta["stale"] = stale
     c.meta["reuse"] = any(not rb for _, rb in steps)
     return c
 
@@ -107,7 +123,10 @@ def oracle(case, obs):
         k = next((i for i, (a, b) in enumerate(zip(calls, want)) if a != b), min(len(calls), len(want)))
         fails.append((None, "delivery differs at call #%d: shim saw %s, client meant %s" % (
             k, calls[k] if k < len(calls) else "<nothing>", want[k] if k < len(want) else "<nothing>")))
-    if result_of(obs) != "ok":
+    if case.meta.get("stale"):
+        if result_of(obs) == "ok":
+            fails.append((None, "an execution without types of a freshly prepared statement was accepted"))
+    elif result_of(obs) != "ok":
         fails.append((None, "run_on returned %s" % result_of(obs)))
     return fails
 
@@ -123,6 +142,10 @@ def gen(ctx, with_long):
     for _ in range(60 if ctx.quick() else 1200):
         i += 1
         cases.append(history_case(ctx, "h_%d" % i, with_long=with_long, lim=ctx.rng.choice([U24_MAX, U24_MAX, 6, 64])))
+    if not with_long:
+        for _ in range(12 if ctx.quick() else 200):
+            i += 1
+            cases.append(history_case(ctx, "h_%d" % i, stale=True))
     return cases
 
 
